@@ -7,14 +7,14 @@ From Coq Require Import Lia.
 Local Open Scope nat_scope.
 
 (* ---- C02: an unresolvable call reads the method's own error stub, never a definition *)
-Theorem error_words R C mi m args :
-  wf_registry R -> compile R = Ok C -> nth_error (r_methods R) mi = Some m -> legal R m args ->
+Theorem error_words R stale C mi m args :
+  wf_registry R -> compile_with stale R = Ok C -> nth_error (r_methods R) mi = Some m -> legal R m args ->
   exists cs, map (key (o_lat C)) cs = args /\
     (spec_dispatch R (meth_defs R m) args = NoDefinition -> resolve C mi (actuals_of C (m_shape m) cs) = Ok (WNi mi)) /\
     (spec_dispatch R (meth_defs R m) args = Ambiguous -> resolve C mi (actuals_of C (m_shape m) cs) = Ok (WAmb mi)) /\
     (forall i, resolve C mi (actuals_of C (m_shape m) cs) = Ok (WFn mi i) -> spec_dispatch R (meth_defs R m) args = Run i).
 Proof.
-  intros Hwf HC Hm Hl. destruct (dispatch_correct R C mi m args Hwf HC Hm Hl) as [cs [E Hr]].
+  intros Hwf HC Hm Hl. destruct (dispatch_correct R stale C mi m args Hwf HC Hm Hl) as [cs [E Hr]].
   exists cs. split; [exact E|]. rewrite Hr. unfold word_of_outcome.
   repeat split.
   - intros ->. reflexivity.
@@ -23,16 +23,16 @@ Proof.
 Qed.
 
 (* ---- C03: the next computed by update *)
-Lemma install_tables L ms st : o_tables (install L ms st) = map (build_method L) ms.
-Proof. unfold install. destruct (place_tables _ _ _). destruct (place_vtbls _ _ _). reflexivity. Qed.
+Lemma install_tables stale L ms st : o_tables (install_with stale L ms st) = map (build_method L) ms.
+Proof. unfold install_with. destruct (place_tables _ _ _). destruct (place_vtbls _ _ _). reflexivity. Qed.
 
-Theorem next_correct R C mi m i :
-  wf_registry R -> compile R = Ok C -> nth_error (r_methods R) mi = Some m -> i < length (m_defs m) ->
+Theorem next_correct R stale C mi m i :
+  wf_registry R -> compile_with stale R = Ok C -> nth_error (r_methods R) mi = Some m -> i < length (m_defs m) ->
   nth i (t_nexts (nth mi (o_tables C) (mk_ct [] [] [] (mk_rep 0 0 0 0 0 0) []))) CNi
   = cell_of_outcome (spec_next R (meth_defs R m) i).
 Proof.
   intros Hwf HC Hm Hi.
-  destruct (compile_char R Hwf) as [L [ms [_ [_ [HC' [Hlo [Hms [Hlen Hok]]]]]]]].
+  destruct (compile_char R stale Hwf) as [L [ms [_ [_ [HC' [Hlo [Hms [Hlen Hok]]]]]]]].
   rewrite HC in HC'. inversion HC'; subst C. clear HC'. rewrite install_tables.
   destruct (Hok mi m Hm) as [cm [Hcm Hmok]].
   assert (Hcmwf : meth_wf L cm) by (apply (proj1 (Forall_forall _ _) Hms); eapply nth_error_In; eassumption).
@@ -43,25 +43,25 @@ Proof.
 Qed.
 
 (* ---- C04: no two applicable (method, parameter) pairs share a cell in a class; every cell is inside the v-table *)
-Lemma install_slots L ms st : o_slots (install L ms st) = s_slots st /\ o_first (install L ms st) = s_first st /\ o_vtbl (install L ms st) = write_vtbls L ms st.
-Proof. unfold install. destruct (place_tables _ _ _). destruct (place_vtbls _ _ _). repeat split. Qed.
+Lemma install_slots stale L ms st : o_slots (install_with stale L ms st) = s_slots st /\ o_first (install_with stale L ms st) = s_first st /\ o_vtbl (install_with stale L ms st) = write_vtbls L ms st.
+Proof. unfold install_with. destruct (place_tables _ _ _). destruct (place_vtbls _ _ _). repeat split. Qed.
 
 Definition c_slot (C : compiled) (mi p : nat) : nat := nth p (nth mi (o_slots C) []) 0.
 Definition c_first (C : compiled) (z : nat) : nat := nth z (o_first C) 0.
 Definition c_vlen (C : compiled) (z : nat) : nat := length (nth z (o_vtbl C) []).
 
-Theorem cells_disjoint R C :
-  wf_registry R -> compile R = Ok C ->
+Theorem cells_disjoint R stale C :
+  wf_registry R -> compile_with stale R = Ok C ->
   forall mi p mi' p' z,
     applies (o_lat C) (o_meths C) mi p z -> applies (o_lat C) (o_meths C) mi' p' z ->
     (c_first C z <= c_slot C mi p < c_first C z + c_vlen C z) /\
     (c_slot C mi p = c_slot C mi' p' -> mi = mi' /\ p = p').
 Proof.
   intros Hwf HC mi p mi' p' z Ha Ha'.
-  destruct (compile_char R Hwf) as [L [ms [_ [_ [HC' [Hlo [Hms _]]]]]]].
+  destruct (compile_char R stale Hwf) as [L [ms [_ [_ [HC' [Hlo [Hms _]]]]]]].
   rewrite HC in HC'. inversion HC'; subst C. clear HC'. rewrite install_lat, install_meths in *.
   pose proof (assign_slots_ok L ms (lo_wf R L Hlo) Hms) as Hso.
-  destruct (install_slots L ms (assign_slots L ms)) as [E1 [E2 E3]].
+  destruct (install_slots stale L ms (assign_slots L ms)) as [E1 [E2 E3]].
   unfold c_slot, c_first, c_vlen. rewrite E1, E2, E3.
   destruct (write_vtbls_spec L ms _ Hso) as [[Hvl Hvz] _].
   pose proof (so_in_vtbl L ms _ Hso mi p z Ha) as Hin. unfold slot_of, first_of in Hin.
@@ -73,8 +73,8 @@ Proof.
 Qed.
 
 (* every address a legal call reads lies inside dispatch_data *)
-Theorem legal_call_reads_in_bounds R C mi m cs :
-  wf_registry R -> compile R = Ok C -> nth_error (r_methods R) mi = Some m ->
+Theorem legal_call_reads_in_bounds R stale C mi m cs :
+  wf_registry R -> compile_with stale R = Ok C -> nth_error (r_methods R) mi = Some m ->
   Forall (fun c => c < ncls (o_lat C)) cs -> legal R m (map (key (o_lat C)) cs) ->
   let cm := nth mi (o_meths C) (mk_cmeth [] [] [] []) in
   let ss := nth mi (o_ss C) [] in
@@ -83,9 +83,9 @@ Theorem legal_call_reads_in_bounds R C mi m cs :
   else Forall (in_image C) (first_reads C (length (cm_vp cm)) ss (vptrs_of C cs)).
 Proof.
   intros Hwf HC Hm Hcs Hlegal cm ss.
-  pose proof (resolve_correct R C mi m cs Hwf HC Hm Hcs Hlegal) as Hr.
-  destruct (compile_char R Hwf) as [L [ms [_ [_ [HC' [Hlo [Hms [Hlen Hok]]]]]]]].
-  assert (EC : C = install L ms (assign_slots L ms)) by (rewrite HC in HC'; inversion HC'; reflexivity).
+  pose proof (resolve_correct R stale C mi m cs Hwf HC Hm Hcs Hlegal) as Hr.
+  destruct (compile_char R stale Hwf) as [L [ms [_ [_ [HC' [Hlo [Hms [Hlen Hok]]]]]]]].
+  assert (EC : C = install_with stale L ms (assign_slots L ms)) by (rewrite HC in HC'; inversion HC'; reflexivity).
   destruct (Hok mi m Hm) as [cm' [Hcm Hmok]].
   assert (Ecm : cm = cm').
   { unfold cm. rewrite EC, install_meths. apply nth_error_nth. exact Hcm. }
